@@ -88,11 +88,22 @@ func vC20Scenario() {
 	// back an established connection although the context is over
 	ignore := vBool("netdialignoresctx")
 	vAssume(!ignore || cancelAt == -2)
+	// the connect phase takes 25 of the scenario's milliseconds (only where nothing can end the
+	// context meanwhile): the dial timeout covers connect AND handshake
+	slow := vBool("slowconnect")
+	vAssume(!slow || (ctxKind <= 1 && cancelAt != -2))
 	dialed := false
 	d := Dialer{Timeout: time.Duration(timeout * vUnit()), NetDial: func(dctx context.Context, network, addr string) (net.Conn, error) {
 		// like net.Dialer: an already-ended context fails the dial
 		if err := dctx.Err(); err != nil && !ignore {
 			return nil, err
+		}
+		if slow {
+			if vSymbolic() {
+				vClock += 25 * vUnit()
+			} else {
+				time.Sleep(time.Duration(25 * vUnit()))
+			}
 		}
 		dialed = true
 		return conn, nil
